@@ -113,6 +113,39 @@ func Keys[K cmp.Ordered, V any](m map[K]V, site int) []K {
 	return out
 }
 
+// ---- select choice (rule R7) --------------------------------------------------------
+
+var chooseFn func(site int, ready []int) int
+
+// SetChoose installs the function that picks which ready case of a select runs.
+func SetChoose(f func(site int, ready []int) int) {
+	mu.Lock()
+	chooseFn = f
+	mu.Unlock()
+}
+
+// Choose is given the queue lengths of the channels of a receive-only select. With fewer
+// than two ready it returns -1 (the runtime's select does the rest); otherwise the
+// simulator picks one of the ready cases.
+func Choose(site int, lens ...int) int {
+	var ready []int
+	for i, l := range lens {
+		if l > 0 {
+			ready = append(ready, i)
+		}
+	}
+	if len(ready) < 2 {
+		return -1
+	}
+	mu.Lock()
+	f := chooseFn
+	mu.Unlock()
+	if f == nil {
+		return -1
+	}
+	return f(site, ready)
+}
+
 // ---- knobs (rule R6) ---------------------------------------------------------------
 
 // SetKnobs replaces the table of overridden constants (nil = shipped values).
